@@ -227,6 +227,21 @@ def tensor_rules(rep, model):
     meths.append(('outer', [('elem', 'x'), ('arr', 'a')], {}))
     meths.append(('outer', [('arr', 'a'), ('elem', 'x')], {}))
     meths.append(('reduceat', [('elem', 'x'), ('idx', [0, 1])], {'axis': 1}))
+    # narrow integers: NumPy accumulates in the platform integer, the result
+    # has another dtype than the element
+    for method in ('reduce', 'accumulate'):
+        for dt in ('int8', 'uint8', 'int32', 'bool'):
+            tag = 'NumpyTensor[%s]:add.%s(elem,axis=1)' % (dt, method)
+
+            def f(method=method, dt=dt):
+                I, H = setup(model, dt=dt)
+                x = tensor(H, 'x', dt=dt)
+                want, _ = oracle(model, add, method, [x], {'axis': 1})
+                ret = ufunc_call(I, x, add, method, [x], {'axis': 1})
+                return check_operands(H, [x]) or check_result(ret, want,
+                                                              None, None)
+            guarded(rep, 'R1', tag, f)
+            n += 1
     for method, spec, kw in meths:
         for okind in (None, 'tensor', 'ndarray'):
             tag = 'NumpyTensor:add.%s(%s%s)%s' % (
@@ -803,7 +818,8 @@ def wrapping_rules(rep, model):
 
     class WI_(UI):
         def contains(self, cont, item, node):
-            if isinstance(cont, Inst) and cont.ci.name == 'NumpyTensorSpace':
+            if isinstance(cont, Inst) and cont.ci.name in (
+                    'NumpyTensorSpace', 'DiscretizedSpace'):
                 return isinstance(item, Inst) and item.attrs.get(
                     '_LinearSpaceElement__space') is cont
             return UI.contains(self, cont, item, node)
@@ -861,6 +877,39 @@ def wrapping_rules(rep, model):
                 return 'wrapping %s copies it' % what
     guarded(rep, 'R4', 'NumpyTensorSpace.element(views) shares memory',
             share_views)
+
+    def share_discr():
+        # the same through DiscretizedSpace.element: an array of matching
+        # dtype and shape is wrapped in every memory layout (no order given)
+        dci = model.get('DiscretizedSpace')
+        if dci is None:
+            raise AnalysisError('anchor vanished: DiscretizedSpace')
+        for what, view in (
+                ('a C-ordered array', lambda a: a),
+                ('a Fortran-ordered array', lambda a: a.T.copy().T),
+                ('a view reversed in the last axis', lambda a: a[:, ::-1])):
+            I, H, sp = mk()
+            base = symbols('a', SHAPE)
+            arr = NA(view(base.a), 'float64')
+            dsp = Inst(dci)
+            dsp.attrs['_DiscretizedSpace__tspace'] = sp
+            wrapped = []
+
+            class ET(object):
+                pass
+            dsp.attrs['tspace'] = sp
+            dsp.attrs['element_type'] = Builtin(
+                'element_type', lambda s_, t: wrapped.append(t) or t)
+            dsp.attrs['default_order'] = 'C'
+            el = I.call(I.getattr_value(dsp, 'element'), [arr], {})
+            if not wrapped:
+                return 'no tensor was wrapped'
+            d = data_of(wrapped[-1])
+            if not (isinstance(d, NA) and _np.shares_memory(d.a, arr.a)):
+                return ('DiscretizedSpace.element(%s) copies it: the '
+                        'element does not share memory with the array' % what)
+    guarded(rep, 'R4', 'DiscretizedSpace.element(ndarray) shares memory',
+            share_discr, 'odl/discr/discr_space.py')
 
     def same_elem():
         I, H, sp = mk()
